@@ -2,6 +2,7 @@ package hx
 
 import (
 	"fmt"
+	"github.com/vektah/gqlparser/v2"
 	"sort"
 
 	"github.com/nautilus/gateway"
@@ -27,7 +28,7 @@ func (c20) Cases(tier string) int {
 }
 
 func (c20) Rule() string {
-	return "L2.new-options: 2 random option lists per case through gateway.New against Nw.build (the installed planner is told the last priority list wherever its option stands); federations with 35% multi-homed fields and priorities (absent, partial, total, naming unknown services; the priorities option given to gateway.New after or before the planner option) x queries writing fields plain, inside inline fragments (typed/untyped/nested) and inside named fragments; planning only; every field occurrence of every plan step is checked against the Lean chooser evaluated on the routing table captured through WithPlanner (parent = the location of the enclosing object's step); non-trivial = at least one multi-homed field decided; distinct = distinct (federation, priorities, query)"
+	return "L1.routing: the routing table handed to the planner against the Lean routing model computed from the service schemas (what a service offers is what its schema declares); L2.new-options: 2 random option lists per case through gateway.New against Nw.build (the installed planner is told the last priority list wherever its option stands); federations with 35% multi-homed fields and priorities (absent, partial, total, naming unknown services; the priorities option given to gateway.New after or before the planner option) x queries writing fields plain, inside inline fragments (typed/untyped/nested) and inside named fragments; planning only; every field occurrence of every plan step is checked against the Lean chooser evaluated on the routing table captured through WithPlanner (parent = the location of the enclosing object's step); non-trivial = at least one multi-homed field decided; distinct = distinct (federation, priorities, query)"
 }
 
 type placedField struct {
@@ -156,6 +157,20 @@ func (c20) Run(c *Ctx, i int) CaseResult {
 			}
 		}
 	}
+	// "offers it" is what the service schemas say, not what the gateway's own table says: the table the planner is
+	// handed must be the routing model's, computed from the services' schemas in registration order
+	if c.Drv != nil && fc.Fed.Locations != nil {
+		var urls []string
+		var schemas []*ast.Schema
+		for _, svc := range fc.Fed.Services {
+			urls = append(urls, svc.URL)
+			schemas = append(schemas, svc.Schema)
+		}
+		if d := routeDiffURLs(c, fc.Fed, urls, schemas, gatewayOwnSchema()); d != "" {
+			res.Fails = append(res.Fails, Failure{Channel: "L1.routing", Classifier: "unclassified", What: d, Input: in})
+			return res
+		}
+	}
 	configured := in.Spec.Priorities
 	if configured == nil {
 		configured = []string{}
@@ -265,6 +280,16 @@ func (c20) runInput(c *Ctx, in FedInput) []Failure {
 		}
 	}
 	return fails
+}
+
+var gwOwnSchema *ast.Schema
+
+// gatewayOwnSchema: what the gateway adds of its own (Node and Query.node)
+func gatewayOwnSchema() *ast.Schema {
+	if gwOwnSchema == nil {
+		gwOwnSchema, _ = gqlparser.LoadSchema(&ast.Source{Input: internalSDL})
+	}
+	return gwOwnSchema
 }
 
 func init() { Runners["C20"] = c20{} }
